@@ -141,7 +141,7 @@ func ruleOPureExecute(c *Ctx) {
 			}
 			n++
 			if strings.HasSuffix(w.Root, "WithTx$1#tx") && w.Kind == "store" &&
-				(w.Path == ".Inputs[*].PreviousTxScript" || w.Path == ".Inputs[*].PreviousTxSatoshis") {
+				(w.Path == ".Inputs[*].PreviousTxScript" || w.Path == ".Inputs[*].PreviousTxSatoshis") && strings.Contains(w.Site, ".thread).apply#") {
 				c.OK("O-pure", writeKey("Execute/documented", w), w.Pos, "the documented exception: the spent output's script/value are recorded on the checked input")
 				continue
 			}
